@@ -1035,3 +1035,83 @@ func ruleR0510(c *Ctx) {
 		c.Undecided("recover-sites", token.NoPos, "only %d functions calling recover() found", n)
 	}
 }
+
+// ---------------------------------------------------------------------------
+// R05.11 a deferred recover reports into the result of the function that defers it
+//
+// `defer recoverToError(&err)` turns a panic into the error result only if err
+// IS the result: a named result of the very function that executes the defer.
+// If the function has unnamed results, &err binds to a variable of an
+// enclosing function; the panic is still recovered, the literal returns its
+// zero results - (nil, nil): the fault is neither raised nor reported.
+
+func ruleR0511(c *Ctx) {
+	n := 0
+	forEachFuncBody(c.RepoPkgs, func(pkg *packages.Package, fn ast.Node, body *ast.BlockStmt) {
+		info := pkg.TypesInfo
+		k := 0
+		inspectNoLit(body, func(x ast.Node) bool {
+			d, ok := x.(*ast.DeferStmt)
+			if !ok {
+				return true
+			}
+			if _, isLit := ast.Unparen(d.Call.Fun).(*ast.FuncLit); isLit || !c.recoveringDefer(pkg, d) {
+				return true
+			}
+			// pointer arguments: &x
+			for _, a := range d.Call.Args {
+				u, ok := ast.Unparen(a).(*ast.UnaryExpr)
+				if !ok || u.Op != token.AND {
+					continue
+				}
+				id, ok := ast.Unparen(u.X).(*ast.Ident)
+				if !ok {
+					continue
+				}
+				k++
+				n++
+				key := fmt.Sprintf("%s#recover-target[%d]", c.FuncName(fn)+litSuffix(c, fn), k)
+				obj := info.ObjectOf(id)
+				var ft *ast.FuncType
+				switch t := fn.(type) {
+				case *ast.FuncDecl:
+					ft = t.Type
+				case *ast.FuncLit:
+					ft = t.Type
+				}
+				isResult := false
+				if ft != nil && ft.Results != nil {
+					for _, f := range ft.Results.List {
+						for _, nm := range f.Names {
+							if info.Defs[nm] == obj {
+								isResult = true
+							}
+						}
+					}
+				}
+				if isResult {
+					c.OK(key, d.Pos(), "the recovered panic is stored into the named result %s of the function that defers the recover", id.Name)
+					continue
+				}
+				// a function without results can only report through a variable of its caller:
+				// var err error; func() { defer rec(&err); work() }(); if err != nil { ... }
+				if ft != nil && (ft.Results == nil || len(ft.Results.List) == 0) && !(obj != nil && obj.Pos() >= fn.Pos() && obj.Pos() <= fn.End()) {
+					c.OK(key, d.Pos(), "the function that defers the recover has no results; the recovered panic is stored into %s of the enclosing function, which looks at it after the call", id.Name)
+					continue
+				}
+				declaredHere := obj != nil && obj.Pos() >= fn.Pos() && obj.Pos() <= fn.End()
+				if declaredHere {
+					// a variable read after the deferred call has run cannot be returned by a return statement: the
+					// return value was already evaluated. Only a named result works.
+					c.Violation(key, d.Pos(), "the deferred recover stores the panic into the local variable %s, which is no named result: the value a return statement hands back is computed before deferred calls run, so the recovered panic never reaches the caller", id.Name)
+					continue
+				}
+				c.Violation(key, d.Pos(), "the deferred recover stores the panic into %s, a variable of an enclosing function and not a named result of the function that executes the defer: the panic is recovered, this function returns its zero results (a nil value and a nil error), and the fault is neither raised nor reported - try/catch yields nil instead of running the catch part", id.Name)
+			}
+			return true
+		})
+	})
+	if n < 5 {
+		c.Undecided("value#deferred-recover-helpers", token.NoPos, "only %d deferred recover helpers with a pointer argument found", n)
+	}
+}
